@@ -84,8 +84,25 @@ Definition go_int_literal (d : list N) : option N :=
 
 Definition err_gen : N := 40.
 
-(* processField, composed with what reflection reports of the emitted line.  The second
-   component tells whether the emitted line compiles (an array length Go cannot read). *)
+(* the type attribute: Go element type, whether the Go field is an array and of which length (as
+   the Go compiler reads the literal the generator pastes between the brackets), mavlen tag *)
+Definition field_type (typ0 : list N) : res (list N * bool * N * list N) :=
+  let typ1 := if bytes_eqb typ0 s_mavlink_version then s_uint8_t else typ0 in
+  let '(typ, arr, taglen) :=
+    match parse_array typ1 with
+    | Some (base, n) => if bytes_eqb base s_char then (s_char, None, n) else (base, Some n, [])
+    | None => (typ1, None, [])
+    end in
+  match type_to_go typ with
+  | None => Err err_gen
+  | Some gt =>
+    match arr with
+    | Some n => Ok (gt, true, match go_int_literal n with Some v => v | None => 0 end, taglen)
+    | None => Ok (gt, false, 0, taglen)
+    end
+  end.
+
+(* processField, composed with what reflection reports of the emitted line *)
 Definition process_field (f : xfield) : res gofield :=
   match def_to_go (xf_name f) with
   | Panic => Panic | Err e => Err e
@@ -94,19 +111,9 @@ Definition process_field (f : xfield) : res gofield :=
     | Panic => Panic | Err e => Err e
     | Ok back =>
       let tag_name := if bytes_eqb back (xf_name f) then [] else xf_name f in
-      let typ0 := if bytes_eqb (xf_type f) s_mavlink_version then s_uint8_t else xf_type f in
-      let '(typ, arr, taglen) :=
-        match parse_array typ0 with
-        | Some (base, n) => if bytes_eqb base s_char then (s_char, None, n) else (base, Some n, [])
-        | None => (typ0, None, [])
-        end in
-      match type_to_go typ with
-      | None => Err err_gen
-      | Some gt =>
-        let '(isarr, alen) := match arr with
-                              | Some n => (true, match go_int_literal n with Some v => v | None => 0 end)
-                              | None => (false, 0)
-                              end in
+      match field_type (xf_type f) with
+      | Panic => Panic | Err e => Err e
+      | Ok (gt, isarr, alen, taglen) =>
         let tag_ext := if xf_ext f then s_true else [] in
         match xf_enum f with
         | [] => Ok (mkGoField newname isarr alen gt (bytes_eqb gt s_uint64) (bytes_eqb gt s_string) [] taglen tag_ext tag_name)
